@@ -1,5 +1,5 @@
 """property -> rules.  A property appears here only when its check is complete enough to be claimed."""
-from .rules import optable, stack_rules
+from .rules import optable, stack_rules, spelling
 
 PROPS = {}
 
@@ -39,6 +39,7 @@ def c16(ctx, rep):
     optable.rule_prefix_and_roundtrip(ctx, rep)
     optable.rule_field_tables(ctx, rep)
     optable.rule_tokens(ctx, rep)
+    spelling.rule_int_spellings(ctx, rep)
 
 
 @prop("C19", "Decides the structural clauses of C19: (T-OP(version,mode)) introduction version and mode of every opcode class and "
